@@ -202,8 +202,12 @@ def compare_model(ctx, cfg, pa, run, init, steps, ans, inp):
             if c == d:
                 B = gem[t]
         exp += [c]
-    if run["rec"].nsel != exp:
-        diffs.append(("_n_selected_features() values seen by _path", exp, run["rec"].nsel))
+    # how OFTEN `_path` asks is not behaviour (the count is a pure function of the weights; a refactoring may keep it in a local):
+    # compared are the successive distinct values it was given
+    def runs(v):
+        return [x for k, x in enumerate(v) if k == 0 or x != v[k - 1]]
+    if runs(run["rec"].nsel) != runs(exp):
+        diffs.append(("_n_selected_features() values seen by _path (successive distinct values)", runs(exp), runs(run["rec"].nsel)))
     if sl.hx(B) != m["bestscore"]:
         diffs.append(("best_gemini_score", sl.hx(B), m["bestscore"]))
     ctx.compared("path-bookkeeping")
